@@ -156,6 +156,7 @@ struct Verdict
   bool infra = false;       // infrastructure problem (not a verdict)
   uint64_t weight = 1;      // evaluations this case stands for (batched cases)
   std::vector<uint64_t> more_distinct; // identities of the members of a batch (all non-trivial)
+  std::string replay_text;  // non-empty: a smaller case reproducing the failure (written as the replay file)
   static Verdict fail(const std::string &m)
   {
     Verdict v;
